@@ -514,8 +514,15 @@ class Charge:
         id_list : Sequence of int
             List of particle ids: ``[0, 12, 321]``
         """
+        had_clusters: bool = not self._frame.empty
+
         if id_list:
             # TODO: Check carefully if 'inplace' is needed. This could break lot of things.
             self._frame.query(f"index not in {id_list}", inplace=True)
         else:
             self._frame = self.EMPTY_FRAME.copy()
+
+        if had_clusters and self._frame.empty:
+            # All charge was held by the removed clusters, do not fall back to an
+            # outdated cached array
+            self._array = np.zeros_like(self._array)
